@@ -967,6 +967,32 @@ func (g *gen) groupCommit(n int) {
 			g.stalePrefixProg(o)
 			continue
 		}
+		if g.chance(0.05) {
+			// a selection edited until its text EQUALS the parent's whole text (seeded change C05k:
+			// Commit short-cut on `ed.Text == parent.Text`): the prefix and the suffix of the parent are
+			// inserted around the selected part; or a repeated line is doubled through Apply
+			if g.chance(0.7) {
+				cc := clusterCount(t)
+				a := g.r.Intn(cc + 1)
+				b := a + g.r.Intn(cc-a+1)
+				pre := rosed.Edit(t).CharsTo(a).Text
+				suf := rosed.Edit(t).CharsFrom(b).Text
+				st := []string{g.editStep(t, o), fmt.Sprintf("chars,0,%d,%d", a, b),
+					fmt.Sprintf("insert,1,0,%s", encText(pre)), fmt.Sprintf("insert,2,End,%s", encText(suf)),
+					"string,3", "commit,3", "commitall,3"}
+				g.emit("prog", strings.Join(st, ";"))
+			} else {
+				l := g.line(mode, 3)
+				sep := o.LineSeparator
+				if sep == "" {
+					sep = "\n"
+				}
+				t2 := l + sep + l + sep
+				st := []string{g.editStep(t2, o), "lines,0,0,1", "apply,1,2,=", "string,2", "commit,2", "commitall,2"}
+				g.emit("prog", strings.Join(st, ";"))
+			}
+			continue
+		}
 		st := []string{g.editStep(t, o)}
 		cur := 0
 		depth := 1 + g.r.Intn(4)
@@ -1090,6 +1116,33 @@ func (g *gen) groupEdit(n int) {
 			st = append(st, fmt.Sprintf("string,%d", len(st)-1))
 			st = append(st, fmt.Sprintf("commit,%d", len(st)-2))
 			g.emit("prog", strings.Join(st, ";"))
+			continue
+		}
+		if g.chance(0.12) {
+			// the argument is derived from the receiver's own text: exactly what stands at the position,
+			// a code-point prefix of it that may end inside a cluster, or the whole text (seeded change
+			// C09k: "the new text is already there" tested on bytes)
+			cc := clusterCount(t)
+			p := g.r.Intn(cc + 1)
+			tail := []rune(rosed.Edit(t).CharsFrom(p).Text)
+			var arg string
+			switch g.r.Intn(4) {
+			case 0:
+				arg = string(tail)
+			case 1, 2:
+				arg = string(tail[:g.r.Intn(len(tail)+1)])
+			default:
+				arg = string([]rune(t))
+			}
+			pos := p
+			if g.chance(0.3) && p < cc {
+				pos = p - cc
+			}
+			op := "overtype"
+			if g.chance(0.25) {
+				op = "insert"
+			}
+			g.emit("prog", g.editStep(t, rosed.Options{})+";"+fmt.Sprintf("%s,0,%s,%s", op, encInt(pos), encText(arg)))
 			continue
 		}
 		cc := clusterCount(t)
